@@ -732,16 +732,19 @@ class Run:
     def wire_model(self, cfg, expect="ok", note=""):
         return self.model("MCWire.tla", cfg, expect=expect, env={"VERIF_VALUES": self.wm_values()}, note=note)
 
-    def receiver_design(self, mode="clauses", sample=None, sim=None):
+    def receiver_design(self, mode="clauses", sample=None, sim=None, full=False):
         """WireMachine with kept receivers and refused decodes (Receivers = TRUE) over a universe of its own: one frame type with three
         registered bodies (and none), one extension owner with two application ids.  Exhaustive design check, the deviation that must
         fail, and direction A: every exported behaviour (or a sample) executed on the real types with ONE receiver object per type
         kept for the whole behaviour."""
         vals = self.wm_values("wmrcv")
         deep = self.tier != "quick"
-        self.model("MCWire.tla", "MCWire_rcv_d6.cfg" if deep else "MCWire_rcv_d5.cfg", env={"VERIF_VALUES": vals},
-                   note="kept receivers + refused decodes, every history of <= %d operations: FramesRight, HeadDecodes, ChannelShape, ReceiverIndependent, AppendOnly" % (6 if deep else 5))
-        self.model("MCWire.tla", "MCWire_dev_rcvkeeps.cfg", expect="ReceiverIndependent", env={"VERIF_VALUES": vals})
+        # (the export configuration checks the state invariants on every behaviour of depth 5 as well; the separate exhaustive run with the
+        # action property, and the sensitivity configuration, are made by C15 in the quick tier and by every user in the thorough tier)
+        if full or deep:
+            self.model("MCWire.tla", "MCWire_rcv_d6.cfg" if deep else "MCWire_rcv_d5.cfg", env={"VERIF_VALUES": vals},
+                       note="kept receivers + refused decodes, every history of <= %d operations: FramesRight, HeadDecodes, ChannelShape, ReceiverIndependent, AppendOnly" % (6 if deep else 5))
+            self.model("MCWire.tla", "MCWire_dev_rcvkeeps.cfg", expect="ReceiverIndependent", env={"VERIF_VALUES": vals})
         n = self.behaviour_replay("MCWire_rcv_export5.cfg", sample=sample, mode=mode, vals=vals, note="(kept receivers)",
                                   keep=lambda st: sum(1 for x in st if x["op"] in ("decode", "refused")) >= 2)
         if sim:
